@@ -5,7 +5,7 @@ The model's parenthesisation predicates are the printer's (translated source).
 (statement-by-statement translation over `Model/PyRt.lean`).  Each theorem below equates one
 generated definition with the corresponding function of the hand-written model, for ALL inputs.
 -/
-import Mathy.Gen.PySrc
+import Mathy.Gen.PySrcPrint
 import Mathy.Model.Print
 namespace Mathy.SrcAgree
 open Mathy.Py Mathy.Gen.Src
